@@ -541,6 +541,99 @@ theorem minPos_facts (p1 : Bytes) (a : Nat) (ha : Bytes.indexByte p1 123 = some 
       · trivial
       · omega
 
+/- the common front part of the proofs about a path WITH variables: the generated function, unfolded, its loop and
+   its first blocks rewritten in terms of the stages of the model, down to the cut `start := path[0:minPos]`.
+   Expects in the context: `hm hsp hhead hss hne hvars hbad ha` as in `tie_parseParamRoute_vars`; introduces `p1`
+   (with `hp1 : path1Of vars route.path = p1`), `hq`, `hmin`, … -/
+set_option hygiene false in
+macro "pp_front" : tactic => `(tactic| (
+    unfold Gen.Router.parseParamRoute
+    have hfa : findAllM route.path = ss := hss
+    have hlen : (((ss.length : Int)) == 0) = false := by
+      cases ss with
+      | nil => simp at hne
+      | cons a t => simp; omega
+    simp only [bind, Except.bind, pure, Except.pure, hfa, hlen, Bool.false_eq_true, if_false]
+    have hgood : ((ss.map (parseVarIn gv)).any fun v => !goodRegexString v.regex) = false := by rw [hvars]; exact hbad
+    have hmem : ∀ str ∈ ss, 2 ≤ str.length := fun str hs => findVars_len _ _ _ (hss ▸ hs)
+    rw [(pp_loop gv _ ss (by
+      intro str hs st
+      have h2 := hmem str hs
+      simp only [slice_inner str h2, ppBlk6_eq]
+      obtain ⟨hg, hb⟩ := tie_goodRegexString st.1 (parseVarIn gv str).name (parseVarIn gv str).regex
+      constructor
+      · intro hgr; simp only [hg hgr]; rfl
+      · intro hgr; obtain ⟨e, he⟩ := hb hgr; exact ⟨e, by simp only [he]⟩) (route, [], [], [], [])).1 hgood]
+    obtain ⟨f1, f2, f3⟩ := pp_fold gv ss (route, [], [], [], [])
+    simp only at f1 f2 f3
+    generalize ss.foldl (fun b a => stepP gv a b) (route, [], [], [], []) = st at f1 f2 f3 ⊢
+    obtain ⟨r', n', v', rw', vr'⟩ := st
+    simp only at f1 f2 f3
+    simp only [List.nil_append, hvars] at f1 f2 f3
+    subst f1 f2 f3
+    simp only [ppBlk13_eq, ppBlk14_eq, ppBlk16_eq, ppBlk21_eq]
+    -- the path after the first replacement, and the route record at that point
+    have hfl : (vars.flatMap rawOf = []) ↔ (vars.filter (·.hasRegex)) = [] := by
+      have hl := raw_length vars
+      constructor
+      · intro he; rw [he] at hl; exact List.eq_nil_of_length_eq_zero (by simp at hl; omega)
+      · intro he; rw [he] at hl; exact List.eq_nil_of_length_eq_zero (by simpa using hl)
+    have hraw : (vars.flatMap rawOf = []) ↔ (rawPairs vars).isEmpty = true := by
+      rw [hfl]; unfold rawPairs; simp [List.isEmpty_iff]
+    have hrep : replacerM (vars.flatMap rawOf) route.path = replaceAll (rawPairs vars) (route.path.length + 1) route.path := by
+      unfold replacerM rawPairs; rw [pairUp_raw]
+    have hblk : (if vars.flatMap rawOf = [] then
+          (({ route with matches_ := route.matches_ ++ vars.map (·.name) } : Gen.Route), route.path)
+        else (({ route with matches_ := route.matches_ ++ vars.map (·.name), spath := replacerM (vars.flatMap rawOf) route.path } : Gen.Route), replacerM (vars.flatMap rawOf) route.path))
+        = (({ route with matches_ := vars.map (·.name), spath := spathOf vars route.path } : Gen.Route), path1Of vars route.path) := by
+      unfold spathOf path1Of
+      by_cases he : vars.flatMap rawOf = []
+      · simp only [he, if_true, hraw.mp he, hm, hsp, List.nil_append]
+      · have : (rawPairs vars).isEmpty = false := by
+          cases hh : (rawPairs vars).isEmpty with
+          | false => rfl
+          | true => exact absurd (hraw.mpr hh) he
+        simp only [he, if_false, this, Bool.false_eq_true, hrep, hm, List.nil_append]
+    simp only [hblk]
+    -- the rewritten path still begins with '/'
+    have hp1head : (path1Of vars route.path).head? = some 0x2F := by
+      unfold path1Of
+      split
+      · exact hhead
+      · cases hpth : route.path with
+        | nil => rw [hpth] at hhead; simp at hhead
+        | cons c t =>
+          rw [hpth] at hhead
+          simp only [List.head?_cons, Option.some.injEq] at hhead
+          subst hhead
+          apply replaceAll_head
+          intro p hp
+          unfold rawPairs at hp
+          simp only [List.mem_map, List.mem_filter] at hp
+          obtain ⟨vi, ⟨hvi, _⟩, rfl⟩ := hp
+          rw [← hvars] at hvi
+          simp only [List.mem_map] at hvi
+          obtain ⟨str, hstr, rfl⟩ := hvi
+          have hh := findVars_head _ _ _ (hss ▸ hstr)
+          have : (parseVarIn gv str).str = str := parseVarIn_str gv str
+          simp only [this, hh]
+          simp
+    generalize hp1 : path1Of vars route.path = p1 at ha hp1head ⊢
+    have hq : Gen.quotePointChar p1 = Bytes.quoteDots p1 := quotePointChar_eq _ (by rw [hp1head]; simp)
+    have halt := indexByte_lt' _ _ _ ha
+    have hargI : GoRt.indexByte p1 123 = (a : Int) := by unfold GoRt.indexByte; rw [ha]
+    -- the cut position
+    have hmin := minPos_facts p1 a ha
+    rw [hmin.1]
+    have hsl : slice p1 0 ((minPosOf p1 : Nat) : Int) = .ok (p1.take (minPosOf p1)) := by
+      unfold slice
+      have : (0 : Int) ≤ 0 ∧ (0 : Int) ≤ ((minPosOf p1 : Nat) : Int) ∧ ((minPosOf p1 : Nat) : Int) ≤ p1.length := by
+        have := hmin.2; omega
+      simp only [this, and_self, if_true]
+      simp
+    simp only [hsl]
+  ))
+
 theorem tie_parseParamRoute_vars (route : Gen.Route) (gv : GVars) (info : RouteInfo)
     (hm : route.matches_ = []) (hst : route.start = []) (hsp : route.spath = [])
     (hhead : route.path.head? = some 0x2F)
@@ -568,91 +661,8 @@ theorem tie_parseParamRoute_vars (route : Gen.Route) (gv : GVars) (info : RouteI
         rw [h3] at h
         simp only at h
         obtain ⟨hv, hc, h1, h2, h4, h5, h6⟩ := finish_ok h
-        unfold Gen.Router.parseParamRoute
-        have hfa : findAllM route.path = ss := hss
-        have hlen : (((ss.length : Int)) == 0) = false := by
-          cases ss with
-          | nil => simp at hne
-          | cons a t => simp; omega
-        simp only [bind, Except.bind, pure, Except.pure, hfa, hlen, Bool.false_eq_true, if_false]
-        have hgood : ((ss.map (parseVarIn gv)).any fun v => !goodRegexString v.regex) = false := by rw [hvars]; exact hbad
-        have hmem : ∀ str ∈ ss, 2 ≤ str.length := fun str hs => findVars_len _ _ _ (hss ▸ hs)
-        rw [(pp_loop gv _ ss (by
-          intro str hs st
-          have h2 := hmem str hs
-          simp only [slice_inner str h2, ppBlk6_eq]
-          obtain ⟨hg, hb⟩ := tie_goodRegexString st.1 (parseVarIn gv str).name (parseVarIn gv str).regex
-          constructor
-          · intro hgr; simp only [hg hgr]; rfl
-          · intro hgr; obtain ⟨e, he⟩ := hb hgr; exact ⟨e, by simp only [he]⟩) (route, [], [], [], [])).1 hgood]
-        obtain ⟨f1, f2, f3⟩ := pp_fold gv ss (route, [], [], [], [])
-        simp only at f1 f2 f3
-        generalize ss.foldl (fun b a => stepP gv a b) (route, [], [], [], []) = st at f1 f2 f3 ⊢
-        obtain ⟨r', n', v', rw', vr'⟩ := st
-        simp only at f1 f2 f3
-        simp only [List.nil_append, hvars] at f1 f2 f3
-        subst f1 f2 f3
-        simp only [ppBlk13_eq, ppBlk14_eq, ppBlk16_eq, ppBlk21_eq]
-        -- the path after the first replacement, and the route record at that point
-        have hfl : (vars.flatMap rawOf = []) ↔ (vars.filter (·.hasRegex)) = [] := by
-          have hl := raw_length vars
-          constructor
-          · intro he; rw [he] at hl; exact List.eq_nil_of_length_eq_zero (by simp at hl; omega)
-          · intro he; rw [he] at hl; exact List.eq_nil_of_length_eq_zero (by simpa using hl)
-        have hraw : (vars.flatMap rawOf = []) ↔ (rawPairs vars).isEmpty = true := by
-          rw [hfl]; unfold rawPairs; simp [List.isEmpty_iff]
-        have hrep : replacerM (vars.flatMap rawOf) route.path = replaceAll (rawPairs vars) (route.path.length + 1) route.path := by
-          unfold replacerM rawPairs; rw [pairUp_raw]
-        have hblk : (if vars.flatMap rawOf = [] then
-              (({ route with matches_ := route.matches_ ++ vars.map (·.name) } : Gen.Route), route.path)
-            else (({ route with matches_ := route.matches_ ++ vars.map (·.name), spath := replacerM (vars.flatMap rawOf) route.path } : Gen.Route), replacerM (vars.flatMap rawOf) route.path))
-            = (({ route with matches_ := vars.map (·.name), spath := spathOf vars route.path } : Gen.Route), path1Of vars route.path) := by
-          unfold spathOf path1Of
-          by_cases he : vars.flatMap rawOf = []
-          · simp only [he, if_true, hraw.mp he, hm, hsp, List.nil_append]
-          · have : (rawPairs vars).isEmpty = false := by
-              cases hh : (rawPairs vars).isEmpty with
-              | false => rfl
-              | true => exact absurd (hraw.mpr hh) he
-            simp only [he, if_false, this, Bool.false_eq_true, hrep, hm, List.nil_append]
-        simp only [hblk]
-        -- the rewritten path still begins with '/'
-        have hp1head : (path1Of vars route.path).head? = some 0x2F := by
-          unfold path1Of
-          split
-          · exact hhead
-          · cases hpth : route.path with
-            | nil => rw [hpth] at hhead; simp at hhead
-            | cons c t =>
-              rw [hpth] at hhead
-              simp only [List.head?_cons, Option.some.injEq] at hhead
-              subst hhead
-              apply replaceAll_head
-              intro p hp
-              unfold rawPairs at hp
-              simp only [List.mem_map, List.mem_filter] at hp
-              obtain ⟨vi, ⟨hvi, _⟩, rfl⟩ := hp
-              rw [← hvars] at hvi
-              simp only [List.mem_map] at hvi
-              obtain ⟨str, hstr, rfl⟩ := hvi
-              have hh := findVars_head _ _ _ (hss ▸ hstr)
-              have : (parseVarIn gv str).str = str := parseVarIn_str gv str
-              simp only [this, hh]
-              simp
-        generalize path1Of vars route.path = p1 at ha h3 h2 h4 hp1head ⊢
-        have hq : Gen.quotePointChar p1 = Bytes.quoteDots p1 := quotePointChar_eq _ (by rw [hp1head]; simp)
-        have halt := indexByte_lt' _ _ _ ha
-        have hargI : GoRt.indexByte p1 123 = (a : Int) := by unfold GoRt.indexByte; rw [ha]
-        -- the cut position
-        have hmin := minPos_facts p1 a ha
-        rw [hmin.1]
-        have hsl : slice p1 0 ((minPosOf p1 : Nat) : Int) = .ok (p1.take (minPosOf p1)) := by
-          unfold slice
-          have : (0 : Int) ≤ 0 ∧ (0 : Int) ≤ ((minPosOf p1 : Nat) : Int) ∧ ((minPosOf p1 : Nat) : Int) ≤ p1.length := by
-            have := hmin.2; omega
-          simp only [this, and_self, if_true]
-          simp
-        simp only [hsl]
+        pp_front
+        rw [hp1] at h3 h2 h4
         -- the optional parts
         have hopt : (if GoRt.indexByte p1 91 > 0 then Gen.checkAndParseOptional (Gen.quotePointChar p1) replacerM
             else Except.ok (Gen.quotePointChar p1)) = .ok p3 := by
@@ -687,6 +697,99 @@ theorem tie_parseParamRoute_vars (route : Gen.Route) (gv : GVars) (info : RouteI
         have hgg' := hgg
         simp only at hgg'
         simp only [hgg', h1, h2, h4, h5, h6]
+
+/-- the variables of a path, as the model reads them -/
+def varsOf (gv : GVars) (path : Bytes) : List VarInfo := (findVars (path.length + 1) path).map (parseVarIn gv)
+
+/-- the remaining rejections of a path WITH variables whose variable regexes are accepted: misplaced optional brackets,
+    regexp text that is not valid UTF-8 (MustCompile), a group count that differs from the number of variables
+    (goodRegexGroups) — in each case the generated function panics -/
+theorem tie_parseParamRoute_vars_rejects (route : Gen.Route) (gv : GVars)
+    (hm : route.matches_ = []) (hst : route.start = []) (hsp : route.spath = [])
+    (hhead : route.path.head? = some 0x2F)
+    (hne : (findVars (route.path.length + 1) route.path).isEmpty = false)
+    (hbad0 : ((varsOf gv route.path).any fun v => !goodRegexString v.regex) = false)
+    (a : Nat)
+    (ha0 : Bytes.indexByte (path1Of (varsOf gv route.path) route.path) 0x7B = some a) :
+    (path3Of (path1Of (varsOf gv route.path) route.path) = none →
+      ∃ e, Gen.Router.parseParamRoute route findAllM replacerM gv mustCompileM numSubexpM = .error e) ∧
+    (∀ p3, path3Of (path1Of (varsOf gv route.path) route.path) = some p3 →
+      (Bytes.validUTF8 (replaceAll (varRePairs (varsOf gv route.path)) (p3.length + 1) p3) = false ∨
+       countGroups (replaceAll (varRePairs (varsOf gv route.path)) (p3.length + 1) p3) 0 ≠ (varsOf gv route.path).length) →
+      ∃ e, Gen.Router.parseParamRoute route findAllM replacerM gv mustCompileM numSubexpM = .error e) := by
+  unfold varsOf at *
+  generalize hss : findVars (route.path.length + 1) route.path = ss at hne hbad0 ha0 ⊢
+  generalize hvars : ss.map (parseVarIn gv) = vars at hbad0 ha0 ⊢
+  have hbad := hbad0
+  have ha := ha0
+  constructor
+  · intro h3
+    pp_front
+    rw [hp1] at h3
+    have hopt : ∃ e, (if GoRt.indexByte p1 91 > 0 then Gen.checkAndParseOptional (Gen.quotePointChar p1) replacerM
+        else Except.ok (Gen.quotePointChar p1)) = .error e := by
+      unfold path3Of at h3
+      unfold GoRt.indexByte
+      rw [hq, tie_checkAndParseOptional]
+      cases ho : Bytes.indexByte p1 91 with
+      | none => rw [ho] at h3; cases h3
+      | some o =>
+        rw [ho] at h3
+        simp only at h3
+        by_cases hc1 : o > 0
+        · have : ((o : Int) > 0) := by omega
+          simp only [hc1, if_true] at h3
+          simp only [this, if_true, h3]
+          exact ⟨_, rfl⟩
+        · simp only [hc1, if_false] at h3; cases h3
+    obtain ⟨e, he⟩ := hopt
+    simp only [he]
+    exact ⟨_, rfl⟩
+  · intro p3 h3 hrej
+    pp_front
+    rw [hp1] at h3
+    have hopt : (if GoRt.indexByte p1 91 > 0 then Gen.checkAndParseOptional (Gen.quotePointChar p1) replacerM
+        else Except.ok (Gen.quotePointChar p1)) = .ok p3 := by
+      unfold path3Of at h3
+      unfold GoRt.indexByte
+      rw [hq, tie_checkAndParseOptional]
+      cases ho : Bytes.indexByte p1 91 with
+      | none => rw [ho] at h3; simp only [Option.some.injEq] at h3; simp [h3]
+      | some o =>
+        rw [ho] at h3
+        simp only at h3
+        by_cases hc1 : o > 0
+        · have : ((o : Int) > 0) := by omega
+          simp only [hc1, if_true] at h3
+          simp only [this, if_true, h3]
+        · have : ¬ ((o : Int) > 0) := by omega
+          simp only [hc1, if_false, Option.some.injEq] at h3
+          simp only [this, if_false, h3]
+    simp only [hopt]
+    have hrep2 : replacerM (vars.flatMap varReOf) p3 = replaceAll (varRePairs vars) (p3.length + 1) p3 := by
+      unfold replacerM varRePairs; rw [pairUp_varRe]
+    rw [hrep2]
+    generalize replaceAll (varRePairs vars) (p3.length + 1) p3 = R at hrej ⊢
+    by_cases hv : Bytes.validUTF8 R = true
+    · have hcnt : countGroups R 0 ≠ vars.length := by
+        rcases hrej with h | h
+        · rw [hv] at h; cases h
+        · exact h
+      have hmc : mustCompileM ([0x5E] ++ R ++ [0x24]) = .ok () := by
+        unfold mustCompileM; rw [innerText_wrap, hv]; rfl
+      simp only [hmc]
+      unfold Gen.Route.goodRegexGroups
+      have hn : numSubexpM (some ([0x5E] ++ R ++ [0x24])) = (countGroups R 0 : Nat) := by
+        unfold numSubexpM; simp only; rw [innerText_wrap]
+      simp only [bind, Except.bind, pure, Except.pure, hn, List.length_map]
+      have : (((countGroups R 0 : Nat) : Int) != (vars.length : Int)) = true := by
+        simp only [bne_iff_ne, ne_eq]; omega
+      simp only [this, if_true, throw, throwThe, MonadExceptOf.throw]
+      exact ⟨_, rfl⟩
+    · have hmc : mustCompileM ([0x5E] ++ R ++ [0x24]) = .error .value := by
+        unfold mustCompileM; rw [innerText_wrap]; simp [hv]
+      simp only [hmc]
+      exact ⟨_, rfl⟩
 
 /-- **`parseParamRoute` as generated = the model's `compileRouteIn`**, for a fresh route (no variable names, literal
     prefix or simple path recorded yet) with a formatted path: whenever the model compiles the path, the generated
